@@ -21,6 +21,10 @@ def run(ctx):
         cases = valcorr.validation_cases(ctx, 50 if ctx.quick else 1200, unknown=0.03)
         # undetermined outcomes at many nodes: SOLL rewritten to MUSS aborts where SOLL read as KANN does not, so a flag lost on the way shows
         cases += valcorr.validation_cases(ctx, 50 if ctx.quick else 800, unknown=0.3)
+        # a small scope enumerated completely: group > segment > free-text element, every indicator at every level, every outcome (also undetermined) at every level
+        ind = ("Muss", "Soll", "Kann") if ctx.quick else ("Muss", "Soll", "Kann", "X", "s")
+        cases += valcorr.small_scope_cases(ctx, [i + x for i in ("Muss", "Soll", "Kann") for x in ("", " [3]")], [i + x for i in ind for x in ("", " [2]")],
+                                           [i + x for i in ind for x in ("", " [1]")], inputs=("abc",) if ctx.quick else ("abc", None))
     finally:
         valcorr.MM[:] = saved
     valcorr.check_val_correspondence(ctx, cases, "C14")
